@@ -1,25 +1,7 @@
 (* C11: an accepted IBAN decomposes losslessly; components are the published substrings. *)
 From Coq Require Import Lia ZifyBool ZifyN.
-From Schwifty Require Import Lib.Base Lib.Regex Model.Clean Model.Data Model.Iban Model.Bban Spec.Iso13616.
+From Schwifty Require Import Lib.Base Lib.Regex Model.Clean Model.Data Model.Iban Model.Bban Spec.Iso13616 Spec.RegistrySpec.
 From Schwifty Require Import Proofs.CleanFacts Proofs.NumFacts Proofs.RunsFacts Proofs.IbanFacts Proofs.IbanTheorems.
-
-(* published positions of a row: inside the BBAN, well-ordered, pairwise disjoint, one per name *)
-Definition range_in (n : Z) (p : Z * Z) : bool := (0 <=? fst p)%Z && (fst p <=? snd p)%Z && (snd p <=? n)%Z.
-Definition disjoint (p q : Z * Z) : bool := (snd p <=? fst q)%Z || (snd q <=? fst p)%Z.
-
-Fixpoint pairwise {A} (f : A -> A -> bool) (l : list A) : bool :=
-  match l with
-  | [] => true
-  | x :: r => forallb (f x) r && pairwise f r
-  end.
-
-Definition positions_wf (r : row) : bool :=
-  match r_positions r with
-  | None => true
-  | Some ps =>
-    forallb (fun kp => range_in (r_bban_length r) (snd kp)) ps
-    && pairwise (fun a b => disjoint (snd a) (snd b) && negb (text_eqb (fst a) (fst b))) ps
-  end.
 
 Lemma get_slice_sub b s e' :
   (0 <= s <= e')%Z -> (e' <= len b)%Z ->
